@@ -41,8 +41,6 @@ def anchor_functions(prog, prop):
         for m in prog.modules.values():
             if name in m.funcs:
                 out.append(m.funcs[name])
-    for cls, in re.findall(r"([A-Z]\w+)(?![\w.])", text):
-        pass
     seen, res = set(), []
     for f in out:
         if f.qual not in seen:
